@@ -461,7 +461,7 @@ def _judge_cam(sim, m, rep, rel):
             d = pp["pathPosition"]
             if not (-131071 <= d["deltaLatitude"] <= 131072 and -131071 <= d["deltaLongitude"] <= 131072):
                 sim.violate(ID, "field-differs", "CAM/pathHistory.pathPosition", f"path point {d} outside the delta range", m["t"])
-        ph = _judge_path_history(sim, m, rep, lf["pathHistory"], rel)
+        ph = _judge_path_history(sim, m, rep, lf["pathHistory"], rel, suspect=any(f[:1] in "!~" for f in flags if f))
         if ph:
             flags.append(ph)
     if "specialVehicleContainer" in par:
@@ -486,7 +486,7 @@ PH_TIME_TOL = 1           # units of 10 ms (resolution of PathDeltaTime; the ser
 PH_WINDOW = 64            # candidates searched for a point that carries no pathDeltaTime
 
 
-def _judge_path_history(sim, m, rep, path, rel) -> str:
+def _judge_path_history(sim, m, rep, path, rel, suspect=False) -> str:
     """Every path point must be an earlier position of the station, expressed to the resolution of its data elements.
 
     Reference = the CAMs handed to BTP earlier in the same activation (newest first) together with the reports they were built
@@ -504,8 +504,8 @@ def _judge_path_history(sim, m, rep, path, rel) -> str:
     if act is None or rep is None or not fs.is_position_report(rep["tpv"]):
         sim.probe("pathhistory-no-verdict:no-reference")
         return ""
-    if m.get("garbage") or m.get("overflow"):
-        sim.probe("pathhistory-no-verdict:collateral")      # a wrapped element elsewhere in this CAM may have spilled into the container
+    if suspect:
+        sim.probe("pathhistory-no-verdict:collateral")      # another element of this CAM already differs (a wrapped value may have spilled)
         return ""
     cur = rep["tpv"]
     cands = [c for c in reversed(act["cams"]) if c["e"]["pos"] < m["e"]["pos"] and c.get("latest") is not None
